@@ -75,7 +75,7 @@ func (bb *gcpBalancerBuilder) Build(
 		scStates:         make(map[balancer.SubConn]connectivity.State),
 		refreshingScRefs: make(map[balancer.SubConn]*subConnRef),
 		scRefList:        []*subConnRef{},
-		rrRefId:          ^uint32(0),
+		rrRefId:          ^uint64(0),
 		csEvltr:          &connectivityStateEvaluator{},
 		// Initialize picker to a picker that always return
 		// ErrNoSubConnAvailable, because when state of a SubConn changes, we
@@ -220,6 +220,12 @@ func (ref *subConnRef) isRefreshing() bool {
 }
 
 type gcpBalancer struct {
+	// Round-robin cursor for BIND calls. A 64-bit counter: the position is the counter modulo the
+	// pool size, and 2^32 is not a multiple of most pool sizes, so a uint32 counter would break the
+	// rotation when it wraps. First field of the struct: 64-bit atomics need 8-byte alignment on
+	// 32-bit platforms.
+	rrRefId uint64
+
 	cfg       *GCPBalancerConfig
 	methodCfg map[string]*pb.AffinityConfig
 
@@ -234,7 +240,6 @@ type gcpBalancer struct {
 	scStates    map[balancer.SubConn]connectivity.State
 	scRefs      map[balancer.SubConn]*subConnRef
 	scRefList   []*subConnRef
-	rrRefId     uint32
 
 	// Map from a fresh SubConn to the subConnRef where we want to refresh subConn.
 	refreshingScRefs map[balancer.SubConn]*subConnRef
@@ -450,7 +455,7 @@ func (gb *gcpBalancer) getSubConnRoundRobin(ctx context.Context) *subConnRef {
 		gb.newSubConn()
 		gb.mu.RLock()
 	}
-	scRef := gb.scRefList[atomic.AddUint32(&gb.rrRefId, 1)%uint32(len(gb.scRefList))]
+	scRef := gb.scRefList[atomic.AddUint64(&gb.rrRefId, 1)%uint64(len(gb.scRefList))]
 
 	if state := gb.scStates[scRef.subConn]; state == connectivity.Ready {
 		gb.mu.RUnlock()
